@@ -53,6 +53,30 @@ def check(model: Model, rep: Report, tier: str):
         q12(model, rep)
     with rep.isolated():
         q13(model, rep)
+    with rep.isolated():
+        q14(model, rep)
+
+
+# Surface-17 device data (specification): frequency level of every qubit, and the 24 couplings.
+SPEC_GROUPS = {**{f"D{i}": "LOW" for i in (1, 2, 3, 7, 8, 9)}, **{f"D{i}": "HIGH" for i in (4, 5, 6)}, **{f"X{i}": "MID" for i in (1, 2, 3, 4)}, **{f"Z{i}": "MID" for i in (1, 2, 3, 4)}}
+SPEC_EDGES = {frozenset(p.split("-")) for p in (
+    "D1-Z1 D1-X1 D2-Z1 D2-X1 D2-X2 D3-X2 D3-Z2 D4-Z3 D4-Z1 D4-X3 D5-Z1 D5-X2 D5-X3 D5-Z4 D6-Z2 D6-X2 D6-Z4 D7-Z3 D7-X3 D8-X3 D8-Z4 D8-X4 D9-Z4 D9-X4 D4-X3".split())}
+
+
+def q14(model: Model, rep: Report):
+    """The device the rules are stated on: frequency levels and couplings of Surface-17."""
+    rep.trust("spec: Surface-17 frequency levels (D4 D5 D6 high; X1-X4, Z1-Z4 mid; D1 D2 D3 D7 D8 D9 low)")
+    rep.rule("C16.Q14", "Surface17Layer's frequency-level table assigns every qubit the level of the Surface-17 specification (one entry per qubit, compared as a map): the "
+                        "acceptance and parking rules are stated relative to these levels, so one edited entry changes which steps are accepted around that qubit")
+    tb = surface_tables(model)
+    got = tb["groups"]
+    L = model.cls("Surface17Layer")
+    bad = sorted(f"{q}: {got.get(q)} (spec {lv})" for q, lv in SPEC_GROUPS.items() if got.get(q) != lv)
+    extra = sorted(q for q in got if q not in SPEC_GROUPS)
+    rep.check(not bad and not extra, "C16.Q14", "Surface17Layer._frequency_group_lookup", L.loc, found="; ".join(bad + [f"unknown qubit {q}" for q in extra]) or f"{len(got)} entries as specified",
+              required="the Surface-17 levels", what="the frequency level of a qubit differs from the device specification: " + "; ".join(bad + extra) +
+              " -- gates next to it are accepted / parked by the wrong level", detail="levels")
+    rep.floor("frequency-level entries", len(got), 17)
 
 
 def q13(model: Model, rep: Report):
@@ -198,6 +222,9 @@ def q11(model: Model, rep: Report):
             if subst(v, mp) != subst(disj, mp):
                 same = False
                 break
+    if bad and not [a for a in bad if subterms(a, lambda y: y[0] == "attr" and y[2] in ("id", "_id", "name")) or subterms(a, lambda y: y[0] == "fstr")]:
+        # tests that are neither plain memberships of the element nor look-ups through derived strings (a quantifier over look-ups made by callables, a helper): not read
+        raise AnalysisError(f"ParityGroup.contains: membership is decided through {show(bad[0])[:100]} (not read as memberships of the element in the group's containers)")
     ok = not bad and same and want <= covered
     why = (f"tests {show(bad[0])[:100]} instead of the element itself" if bad else "" if same else "is not the disjunction of its membership tests") or \
           (f"does not look at {sorted(want - covered)}" if not want <= covered else "")
@@ -744,8 +771,8 @@ def q6(model: Model, rep: Report):
                     if len(hp) == 1:
                         # read the method on its own parameter (bound names inside it refer to that parameter)
                         acc, seq = hv, sym(hp[0])
-                except Unsupported:
-                    pass
+                except Unsupported as e_:
+                    raise AnalysisError(f"construct_allowed_gate_sequences: a grouping is kept when {G.name}.{acc[1][2]}(grouping) says so, and that method is not read as a value ({e_}); nothing decided")
         if not (acc[0] == "quant" and acc[1] == "all" and acc[2][0] == "comp" and len(acc[2][3]) == 1 and not acc[2][3][0][1]):
             bad.append(f"a grouping is kept under [{show(acc)[:120]}], not 'every step is mutually allowed'")
         else:
@@ -921,18 +948,22 @@ def q7(model: Model, rep: Report):
         def signature(sg):
             sg = devar(fuse_comprehensions(resolve_lists(p, sg)))
             if sg[0] == "list":
-                return [("item", norm(x)) for x in sg[1]]
+                return [("item", _norm_calls(norm(x))) for x in sg[1]]
             if sg[0] == "comp" and len(sg[3]) == 1 and norm(sg[3][0][0]) == norm(edges_q):
                 bs = [y for y in subterms(sg[2], lambda y: y[0] == "bound")]
                 if len(bs) == 1 and norm(sg[2]) == norm(gate(bs[0])):
                     return [("gates", tuple(sorted(classify(x, bs[0]) for x in sg[3][0][1])))]
             return [("?", show(sg)[:80])]
         got = sorted(x for sg in segs for x in signature(sg))
+        if any(x[0] == "?" or (x[0] == "gates" and any(str(c_).startswith(("?", "not ?")) for c_ in x[1])) for x in got):
+            # a condition / a piece of the list that is not read (a rule table of callables, a helper): no verdict on what is not read
+            unread = [x for x in got if x[0] == "?" or (x[0] == "gates" and any(str(c_).startswith(("?", "not ?")) for c_ in x[1]))]
+            raise AnalysisError(f"{construct}: part of the forbidden list is not read ({str(unread[0])[:120]}); nothing decided")
         want = [("gates", ("intersects",))]
         if must_park:
-            want += [("item", norm(("call", ("fn", "Operation.type_idle"), (), (("qubit_id", q),)))), ("gates", ("not intersects", "not moving"))]
+            want += [("item", _norm_calls(norm(("call", ("fn", "Operation.type_idle"), (), (("qubit_id", q),))))), ("gates", ("not intersects", "not moving"))]
         if must_idle:
-            want += [("item", norm(("call", ("fn", "Operation.type_park"), (), (("qubit_id", q),)))), ("gates", ("moving", "not intersects"))]
+            want += [("item", _norm_calls(norm(("call", ("fn", "Operation.type_park"), (), (("qubit_id", q),))))), ("gates", ("moving", "not intersects"))]
         want = sorted(want)
         if got != want:
             missing = [str(w)[:90] for w in want if w not in got]
@@ -993,11 +1024,14 @@ def q7(model: Model, rep: Report):
         from .common import star_segments
         segs = contents(pps[0], pps[0].value) if pps[0].value is not None and pps[0].value[0] == "var" else ([devar(pps[0].value)] if pps[0].value is not None else None)
         flat = []
-        for sg in [y for x in segs or [] for y in star_segments(devar(x))]:
+        def _parts(x_):
+            x_ = devar(x_)
+            return [z_ for y_ in x_[1] for z_ in _parts(y_)] if x_[0] == "concat" else [x_]
+        for sg in [y for x in segs or [] for w_ in _parts(x) for y in star_segments(devar(w_))]:
             sg = devar(sg)
             flat.extend([("item", x) for x in sg[1]] if sg[0] == "list" else [("comp", sg)])
-        want_items = {("call", ("fn", "Operation.type_idle"), (), (("qubit_id", pq),)), ("call", ("fn", "Operation.type_park"), (), (("qubit_id", pq),))}
-        items = {x for k, x in flat if k == "item"}
+        want_items = {_norm_calls(("call", ("fn", "Operation.type_idle"), (), (("qubit_id", pq),))), _norm_calls(("call", ("fn", "Operation.type_park"), (), (("qubit_id", pq),)))}
+        items = {_norm_calls(x) for k, x in flat if k == "item"}
         comps = [x for k, x in flat if k == "comp"]
         okp = items == want_items and len(comps) == 1 and comps[0][0] == "comp" and len(comps[0][3]) == 1 and not comps[0][3][0][1] \
             and _strip_lines(comps[0][3][0][0]) == _strip_lines(("call", ("attr", pcon, "get_edges"), (), (("qubit", pq),))) and comps[0][2][0] == "call" and comps[0][2][1] == ("fn", "Operation.type_gate")
